@@ -1530,6 +1530,8 @@ class Interp:
                     kwargs.update(v.d)
                 elif isinstance(v, dict):
                     kwargs.update(v)
+                elif hasattr(v, "as_kwargs"):
+                    kwargs["__symbolic_kwargs__"] = v  # a spec-level description of keyword arguments: only a callee that knows what it means accepts it
                 else:
                     raise Unsupported("**kwargs of symbolic dict")
             else:
